@@ -219,6 +219,11 @@ def check_case(ctx, case):
         if arg is None:
             ctx.skip('SMILES not parseable by RDKit')
             return
+        if case.get('ringinfo') == 'fast':
+            # ring info computed by FastFindRings (not the SSSR): a reader of
+            # the STORED ring info sees other rings than a fresh perception
+            Chem.FastFindRings(arg)
+            ctx.count('molecule_objects_with_fast_ring_info')
         ctx.count('molecule_object_inputs')
     o = observe(real.GetDescriptors, arg)
     ctx.evals()
@@ -388,10 +393,14 @@ def run_shard(ctx):
         for smi in pl:
             if ctx.mine(i):
                 check_case(ctx, {'scheme': spec, 'smiles': smi})
-                if i % 4 == 0 or '~' in smi or '$' in smi or '[H]' in smi:
+                if i % 4 == 0 or '~' in smi or '$' in smi or '[H]' in smi \
+                        or sum(c.isdigit() for c in smi) >= 4:
                     # the same molecule handed over as an RDKit object
                     check_case(ctx, {'scheme': spec, 'smiles': smi,
                                      'as_mol': True})
+                    if any(c.isdigit() for c in smi):
+                        check_case(ctx, {'scheme': spec, 'smiles': smi,
+                                         'as_mol': True, 'ringinfo': 'fast'})
                 if any(c.isdigit() for c in smi):
                     # ring molecules also in two non-canonical spellings:
                     # ring perception walks each ring in atom order
